@@ -1074,3 +1074,70 @@ _uses("RecurrencePlot.trapping_time[alias]", "timeseries/recurrence_plot.py", "R
       {"v_min": "int"}, [], {"self.average_vertlength": ["arg0==v_min"]})
 _uses("RecurrencePlot.mean_recurrence_time[alias]", "timeseries/recurrence_plot.py", "RecurrencePlot.mean_recurrence_time", ("C08",),
       {"w_min": "int"}, [], {"self.average_white_vertlength": ["arg0==w_min"]})
+
+
+# ============================================================================ timeseries: joint recurrence plot with lag (C07)
+# "joint (with lag) constructions are the stated compositions of such matrices with mutually consistent sizes":
+# JR[i,j] = R_x[i,j] * R_y[i+lag, j+lag] for lag >= 0 (size N-lag), and with the roles of x and y exchanged for lag < 0
+_JR_IN = {"self.lag": "int", "threshold.0": "float", "threshold.1": "float", "DX": "arr:float64:2", "DY": "arr:float64:2", "NT": "int"}
+_jr = K("JointRecurrencePlot.set_fixed_threshold[lag]", "timeseries/joint_recurrence_plot.py", lang="py",
+        func="JointRecurrencePlot.set_fixed_threshold", props=("C07",), py_mode=True, vectors=True, inputs=_JR_IN,
+        requires=["NT>=0", "shape(DX,0)==NT and shape(DX,1)==NT and shape(DY,0)==NT and shape(DY,1)==NT",
+                  "-NT<=self.lag and self.lag<=NT"],
+        call_facts={"self.distance_matrix#1": {"returns": "arr:float64:2", "ensures": ["same_array(result, DX)", "shape(result,0)==NT and shape(result,1)==NT"]},
+                    "self.distance_matrix#2": {"returns": "arr:float64:2", "ensures": ["same_array(result, DY)", "shape(result,0)==NT and shape(result,1)==NT"]}},
+        ensures=["implies(self.lag>=0, shape(self.JR,0)==NT-self.lag and shape(self.JR,1)==NT-self.lag)",
+                 "implies(self.lag<0, shape(self.JR,0)==NT+self.lag and shape(self.JR,1)==NT+self.lag)",
+                 "implies(self.lag>=0, all(self.JR[i,j]==ite(DX[i,j]<threshold[0] and DY[i+self.lag,j+self.lag]<threshold[1],1,0) "
+                 "for i in range(NT-self.lag) for j in range(NT-self.lag)))",
+                 "implies(self.lag<0, all(self.JR[i,j]==ite(DY[i,j]<threshold[1] and DX[i-self.lag,j-self.lag]<threshold[0],1,0) "
+                 "for i in range(NT+self.lag) for j in range(NT+self.lag)))",
+                 "self.N==shape(self.JR,0)"],
+        checks=("shape", "bounds"))
+_jr.region = "body"
+_jr.required_asserts = []
+_JR_IN2 = {"self.lag": "int", "recurrence_rate.0": "float", "recurrence_rate.1": "float", "TX": "float", "TY": "float",
+           "DX": "arr:float64:2", "DY": "arr:float64:2", "NT": "int"}
+_jr2 = K("JointRecurrencePlot.set_fixed_recurrence_rate[lag]", "timeseries/joint_recurrence_plot.py", lang="py",
+         func="JointRecurrencePlot.set_fixed_recurrence_rate", props=("C07",), py_mode=True, vectors=True, inputs=_JR_IN2,
+         requires=["NT>=0", "shape(DX,0)==NT and shape(DX,1)==NT and shape(DY,0)==NT and shape(DY,1)==NT",
+                   "-NT<=self.lag and self.lag<=NT"],
+         call_facts={"self.distance_matrix#1": {"returns": "arr:float64:2", "ensures": ["same_array(result, DX)", "shape(result,0)==NT and shape(result,1)==NT"]},
+                     "self.distance_matrix#2": {"returns": "arr:float64:2", "ensures": ["same_array(result, DY)", "shape(result,0)==NT and shape(result,1)==NT"]},
+                     "self.threshold_from_recurrence_rate#1": {"returns": "float", "ensures": ["result==TX"]},
+                     "self.threshold_from_recurrence_rate#2": {"returns": "float", "ensures": ["result==TY"]}},
+         # each threshold is the stated quantile of the distances of ITS series (the rate of that series)
+         asserts={"call:self.threshold_from_recurrence_rate": ["same_array(arg0, DX)", "arg1==recurrence_rate[0]"],
+                  "call:self.threshold_from_recurrence_rate#2": ["same_array(arg0, DY)", "arg1==recurrence_rate[1]"]},
+         ensures=["implies(self.lag>=0, shape(self.JR,0)==NT-self.lag and shape(self.JR,1)==NT-self.lag)",
+                  "implies(self.lag<0, shape(self.JR,0)==NT+self.lag and shape(self.JR,1)==NT+self.lag)",
+                  "implies(self.lag>=0, all(self.JR[i,j]==ite(DX[i,j]<TX and DY[i+self.lag,j+self.lag]<TY,1,0) "
+                  "for i in range(NT-self.lag) for j in range(NT-self.lag)))",
+                  "implies(self.lag<0, all(self.JR[i,j]==ite(DY[i,j]<TY and DX[i-self.lag,j-self.lag]<TX,1,0) "
+                  "for i in range(NT+self.lag) for j in range(NT+self.lag)))",
+                  "self.N==shape(self.JR,0)"],
+         checks=("shape", "bounds"))
+_jr2.region = "body"
+_jr2.required_asserts = []
+
+
+# ============================================================================ timeseries: inter-system recurrence matrix (C07)
+# "inter-system constructions are the stated compositions of such matrices with mutually consistent sizes":
+# ISRM = [[R_x, CR_xy], [CR_xy^T, R_y]]
+_is = K("InterSystemRecurrenceNetwork.inter_system_recurrence_matrix[blocks]", "timeseries/inter_system_recurrence_network.py",
+        lang="py", func="InterSystemRecurrenceNetwork.inter_system_recurrence_matrix", props=("C07",), py_mode=True, vectors=True,
+        inputs={"self.N": "int", "self.N_x": "int", "RX": "arr:int8:2", "RY": "arr:int8:2", "CR": "arr:int8:2", "NY": "int"},
+        requires=["self.N_x>=0 and NY>=0 and self.N==self.N_x+NY",
+                  "shape(RX,0)==self.N_x and shape(RX,1)==self.N_x and shape(RY,0)==NY and shape(RY,1)==NY",
+                  "shape(CR,0)==self.N_x and shape(CR,1)==NY"],
+        call_facts={"self.rp_x.recurrence_matrix": {"returns": "arr:int8:2", "ensures": ["same_array(result, RX)", "shape(result,0)==self.N_x and shape(result,1)==self.N_x"]},
+                    "self.rp_y.recurrence_matrix": {"returns": "arr:int8:2", "ensures": ["same_array(result, RY)", "shape(result,0)==NY and shape(result,1)==NY"]},
+                    "self.crp_xy.recurrence_matrix": {"returns": "arr:int8:2", "ensures": ["same_array(result, CR)", "shape(result,0)==self.N_x and shape(result,1)==NY"]}},
+        ensures=["shape(result,0)==self.N and shape(result,1)==self.N",
+                 "all(result[i,j]==RX[i,j] for i in range(self.N_x) for j in range(self.N_x))",
+                 "all(result[i,self.N_x+j]==CR[i,j] for i in range(self.N_x) for j in range(NY))",
+                 "all(result[self.N_x+i,j]==CR[j,i] for i in range(NY) for j in range(self.N_x))",
+                 "all(result[self.N_x+i,self.N_x+j]==RY[i,j] for i in range(NY) for j in range(NY))"],
+        checks=("shape", "bounds"))
+_is.region = "body"
+_is.required_asserts = []
